@@ -63,7 +63,8 @@ class C09(scen.WorldProp):
                 "Wheatley.C09.setting_keeps_waiting",
                 "Wheatley.C09.keep_going_never_waits",
                 "Wheatley.C09.cli_waits_unless_keep_going",
-                "Wheatley.C09.poll_survives_delivery"]
+                "Wheatley.C09.poll_survives_delivery",
+                "Wheatley.C09.silent_until_the_bell_rings"]
     # the command line: what of the built configuration this property is about
     cli_fields = ['use_wait']
     level_text = ("theorems: while a user-controlled bell is in the expected set of the stroke being rung the wait "
